@@ -328,18 +328,20 @@ class World(object):
             for t in list(c['rets']) + [f['t'] for f in c['args']]:
                 self._subs(t, late=True)
         memo = {} if c.get('share') else None
-        vals = [to_instance(self.gen, t, v, memo) for t, v in zip(c['rets'], c['rvals'])]
         self.count = getattr(self, 'count', 0) + 1
+        doc = request_doc(c, cfg, form)
+        body = dumps(cfg['fam'], doc, mkey)
+        if self.count % 3 == 1 and len(body) > 2:
+            # the transport saw a request that was cut short just before this one: what is left of it is nobody's business
+            # (it may happen to be a complete document still: the function then answers with nothing)
+            self.holder[0] = None
+            E.send(self.wsgi, {'REQUEST_METHOD': 'POST', 'PATH_INFO': '/', 'QUERY_STRING': '', 'CONTENT_TYPE': CT[cfg['fam']]}, body[:-1])
+        vals = [to_instance(self.gen, t, v, memo) for t, v in zip(c['rets'], c['rvals'])]
         if self.count % 2 == 0:
             # an array of objects produced lazily by a generator that refills and re-yields ONE record object per row
             vals = [_reused(x) if (t['k'] == 'arr' and t['of']['k'] == 'obj' and isinstance(x, list) and len(x) >= 2
                                    and len({type(y) for y in x}) == 1 and x[0] is not None) else x for t, x in zip(c['rets'], vals)]
         self.holder[0] = None if not vals else (vals[0] if len(vals) == 1 else tuple(vals))
-        doc = request_doc(c, cfg, form)
-        body = dumps(cfg['fam'], doc, mkey)
-        if self.count % 3 == 1 and len(body) > 2:
-            # the transport saw a request that was cut short just before this one: what is left of it is nobody's business
-            E.send(self.wsgi, {'REQUEST_METHOD': 'POST', 'PATH_INFO': '/', 'QUERY_STRING': '', 'CONTENT_TYPE': CT[cfg['fam']]}, body[:-1])
         del self.seen[:]
         res = E.send(self.wsgi, {'REQUEST_METHOD': 'POST', 'PATH_INFO': '/', 'QUERY_STRING': '', 'CONTENT_TYPE': CT[cfg['fam']]}, body)
         obs = {'req': tree(doc), 'ncalls': len(self.seen), 'status': res['status'], 'escape': res['escape'] or ''}
